@@ -271,6 +271,37 @@ def numpyIndex (comps : List Comp) (shape : List Nat) : Except Err View :=
   else if needsTranspose comps then .error .unmodelled
   else axiswise numpyAxis comps shape
 
+/-- A NumPy result whose axis order a plain `View` cannot express: the per-axis maps plus, when
+NumPy moves the broadcast (advanced-index) axis to the front, the source position of that axis. -/
+structure NView where
+  view : View
+  front : Option Nat
+  deriving Repr, DecidableEq
+
+/-- The source position of the (single) 1-D index when NumPy moves its axis to the front. -/
+def frontOf (comps : List Comp) : Option Nat :=
+  if needsTranspose comps then ((comps.zipIdx.filter (fun p => p.1.isVec)).map (·.2)).head? else none
+
+/-- Output shape of a NumPy result: the moved axis first, the other kept axes in source order. -/
+def NView.shape (n : NView) : List Nat :=
+  match n.front with
+  | none => n.view.shape
+  | some p =>
+    (match n.view[p]? with
+     | some (.pick srcs) => srcs.length :: View.shape (n.view.eraseIdx p)
+     | _ => n.view.shape)
+
+/-- NumPy indexing with the axis order made explicit: every expression with at most one 1-D index
+is covered — the advanced indices (ints, rank-0 tensors, the 1-D index) being separated by a slice
+makes NumPy put the broadcast axis first (`X[0, :, I]`).  Two or more 1-D indices (zip/broadcast
+semantics) stay `unmodelled`. -/
+def numpyIndexT (comps : List Comp) (shape : List Nat) : Except Err NView :=
+  if comps.length > shape.length then .error .indexError
+  else if (comps.filter Comp.isVec).length > 1 then .error .unmodelled
+  else do
+    let v ← axiswise numpyAxis comps shape
+    pure ⟨v, frontOf comps⟩
+
 /-! ### Plans -/
 
 inductive PlanOp where
